@@ -299,3 +299,16 @@ Proof. intros H. specialize (H [] []). rewrite app_nil_r in H. exact H. Qed.
 From RLBoxV Require Import World.
 Definition world_slot_of (w : world) (s k : nat) : option nat :=
   match nth k (slots (get_sb w s)) None with Some key => Some (Z.to_nat key) | None => None end.
+
+(* the hooks see the per-sandbox state by reference: threading through the cells = iterating per sandbox *)
+Lemma thread_states_expected f init : forall evs cells seen,
+  (forall s, cells s = Nat.iter (count_sbx s seen) f (init s)) ->
+  thread_states f cells evs = expected_states f init seen evs.
+Proof.
+  induction evs as [|e tl IH]; intros cells seen H; cbn [thread_states expected_states]; [reflexivity|].
+  destruct (notif_sbx e) as [s|]; [|apply IH; exact H].
+  rewrite (H s). f_equal. apply IH. intros x. unfold upd_cell. cbn [count_sbx].
+  destruct (Nat.eqb x s) eqn:E.
+  - apply Nat.eqb_eq in E. subst x. rewrite Nat.eqb_refl. cbn. reflexivity.
+  - rewrite Nat.eqb_sym, E. cbn. apply H.
+Qed.
